@@ -4,6 +4,7 @@
   Specification of a segment: `Geo.Proofs.Kernel.SegMem` (GeoProofs/Lemmas/SegmentSpec.lean);
   case structure of the model: GeoProofs/Lemmas/LISpec.lean.
 -/
+import GeoModel.Gen.CollinearTable
 import GeoModel.LineIntersection
 import GeoProofs.Lemmas.SegmentSpec
 import GeoProofs.Lemmas.LISpec
@@ -429,5 +430,18 @@ theorem li_symm (p1 p2 q1 q2 : Pt) :
     obtain ⟨m3, m4⟩ := properPoint_mem h2 h1 c
     exact ⟨unique_common (nonparallel h1 h2 (fun h => a h.1)).1 m1.cross_eq_zero m2.cross_eq_zero
       m4.cross_eq_zero m3.cross_eq_zero, rfl⟩
+
+/-- [T] (translator tie) the hand-written model of `collinear_intersection` equals the table regenerated
+from the Rust source on this run (`translator/rs2lean.py` → `GeoModel/Gen/CollinearTable.lean`: the ten rows of
+the match, in source order, with their guards). If the source's rows, order or guards change, this theorem
+stops checking. -/
+theorem collinearIntersection_eq_source_table (p1 p2 q1 q2 : Pt) :
+    collinearIntersection p1 p2 q1 q2 =
+      Gen.collinearTable
+        (rectCoord (lineBBox p1 p2).1 (lineBBox p1 p2).2 q1) (rectCoord (lineBBox p1 p2).1 (lineBBox p1 p2).2 q2)
+        (rectCoord (lineBBox q1 q2).1 (lineBBox q1 q2).2 p1) (rectCoord (lineBBox q1 q2).1 (lineBBox q1 q2).2 p2)
+        p1 p2 q1 q2 := by
+  unfold collinearIntersection Gen.collinearTable
+  rfl
 
 end Geo.Proofs.C11
